@@ -85,7 +85,6 @@ theorem gen_path_wf : PathWF pathCfg ∧ pathCfg.notFoundErr = .fileNotFound ∧
 for (`leftRef`: id+1 below -1, -1 ↦ 1, 1 ↦ -1, id-1 above 1; `rightRef`: id-1 for negative ids, id+1 for positive
 ones) — proved for every id by case analysis, so an equivalent rewriting of the chains still checks — and faster /
 slower lanes of the other direction are discarded; on a right-hand-traffic road the faster lane is the left one -/
-set_option linter.unusedSimpArgs false in
 theorem gen_adj : AdjWF adjCfg ∧ adjCfg.fasterIsLeftOnRight = true := by
   refine ⟨⟨?_, ?_, by decide⟩, by decide⟩
   · intro id
